@@ -11,6 +11,7 @@
 -/
 import AxVerif.Lemmas.Frame
 import AxVerif.Props.C02
+import AxVerif.Props.C01
 namespace Ax.C03
 open Ax Ax.C02
 
@@ -181,6 +182,47 @@ theorem call_to_rip (s s' : Machine) (i : Instr) (t : BitVec 64) (h : execCallTo
   unfold execCallTo at h
   repeat' split at h
   all_goals first | (cases h; done) | (simp only [Out.ok.injEq] at h; subst h; simp [setRip])
+
+/-! ## two instructions, end to end: `cmp ra, rb ; jcc T` branches exactly on the relation -/
+
+theorem slt_from_flags (a b : BitVec 64) : ((a - b).msb != BitVec.ssubOverflow a b) = a.slt b := by bv_decide
+theorem ult_from_flags (a b : BitVec 64) : BitVec.usubOverflow a b = a.ult b := by bv_decide
+
+/-- **`cmp ra, rb` followed by `jl T`** (through the whole dispatch, for every machine and every pair of 64-bit
+    registers): the compare succeeds and changes only the flags; the jump then goes to T exactly when `ra <ₛ rb`, and
+    otherwise changes nothing (the step frame then leaves RIP at the next instruction, `C11.step_rip_next`). -/
+theorem cmp_then_jl (hh : HasHooks) (i1 i2 : Instr) (s : Machine) (a b : Fin 16) (hc1 : i1.code = "Cmp_rm64_r64")
+    (hops : instructionOperands2 i1 = .ok (.register (.g64 a), .register (.g64 b)))
+    (hl2 : lookup i2.code = some (.jcc "Jl")) :
+    ∃ s1, exec hh i1 s = .ok s1 ∧ s1.regs = s.regs ∧ s1.mem = s.mem ∧
+      ∀ s2, exec hh i2 s1 = .ok s2 →
+        ((s.regs.get a).slt (s.regs.get b) = true → s2.regs.rip = i2.nearBranch) ∧
+        ((s.regs.get a).slt (s.regs.get b) = false → s2 = s1) := by
+  obtain ⟨f, he, _, hof, _, hsf, _, _⟩ := C01.cmp_r64_r64 hh i1 s a b hc1 hops
+  refine ⟨_, he, rfl, rfl, ?_⟩
+  intro s2 h2
+  have hcond : cond "Jl" f = some ((s.regs.get a).slt (s.regs.get b)) := by
+    have := (cond_as_bools f).2.2.2.2.2.2.2.2.1
+    rw [this, hsf, hof, slt_from_flags]
+  have := jcc_rip hh i2 _ s2 "Jl" _ hl2 hcond h2
+  exact ⟨fun ht => (this.1 ht).1, this.2⟩
+
+/-- … and `jb T` exactly when `ra <ᵤ rb` -/
+theorem cmp_then_jb (hh : HasHooks) (i1 i2 : Instr) (s : Machine) (a b : Fin 16) (hc1 : i1.code = "Cmp_rm64_r64")
+    (hops : instructionOperands2 i1 = .ok (.register (.g64 a), .register (.g64 b)))
+    (hl2 : lookup i2.code = some (.jcc "Jb")) :
+    ∃ s1, exec hh i1 s = .ok s1 ∧ s1.regs = s.regs ∧ s1.mem = s.mem ∧
+      ∀ s2, exec hh i2 s1 = .ok s2 →
+        ((s.regs.get a).ult (s.regs.get b) = true → s2.regs.rip = i2.nearBranch) ∧
+        ((s.regs.get a).ult (s.regs.get b) = false → s2 = s1) := by
+  obtain ⟨f, he, hcf, _, _, _, _, _⟩ := C01.cmp_r64_r64 hh i1 s a b hc1 hops
+  refine ⟨_, he, rfl, rfl, ?_⟩
+  intro s2 h2
+  have hcond : cond "Jb" f = some ((s.regs.get a).ult (s.regs.get b)) := by
+    have := (cond_as_bools f).2.2.1
+    rw [this, hcf, ult_from_flags]
+  have := jcc_rip hh i2 _ s2 "Jb" _ hl2 hcond h2
+  exact ⟨fun ht => (this.1 ht).1, this.2⟩
 
 /-! ## Non-vacuity -/
 example : lookup "Ja_rel8_64" = some (.jcc "Ja") ∧ cond "Ja" 0#64 = some true := by decide
